@@ -13,6 +13,7 @@
 package settle
 
 import (
+	"bytes"
 	"context"
 	"crypto/ecdsa"
 	"crypto/sha256"
@@ -213,29 +214,45 @@ func (g *GateStore) Put(key string, i interface{}) error {
 // GoroutineID returns the id of the calling goroutine (from its stack header).
 func GoroutineID() string { return goroutineID() }
 
+var (
+	stackMu  sync.Mutex
+	stackBuf []byte
+)
+
 var reFrame = regexp.MustCompile(`(?m)^(\S+)\(`)
 
 // LockWait reports whether goroutine g is waiting in sync.(*Mutex).Lock called directly from a
 // function whose name ends in one of callers (e.g. ".PutRetrieveTraffic").
 func LockWait(g string, callers ...string) bool {
-	buf := make([]byte, 1<<20)
+	// runtime.Stack(all) formats every goroutine; each case leaks a few (the service's ticker and
+	// receipt loops cannot be stopped), so the dump grows with the run: keep one buffer of the size
+	// that was last needed instead of re-dumping with a doubled buffer every time.
+	stackMu.Lock()
+	defer stackMu.Unlock()
+	if stackBuf == nil {
+		stackBuf = make([]byte, 1<<20)
+	}
+	var buf []byte
 	for {
-		n := runtime.Stack(buf, true)
-		if n < len(buf) {
-			buf = buf[:n]
+		n := runtime.Stack(stackBuf, true)
+		if n < len(stackBuf) {
+			buf = stackBuf[:n]
 			break
 		}
-		buf = make([]byte, 2*len(buf))
+		stackBuf = make([]byte, 2*len(stackBuf))
 	}
-	s := string(buf)
-	i := strings.Index(s, "goroutine "+g+" [")
+	if len(buf) > len(stackBuf)*3/4 {
+		defer func() { stackBuf = make([]byte, 2*len(stackBuf)) }()
+	}
+	i := bytes.Index(buf, []byte("goroutine "+g+" ["))
 	if i < 0 {
 		return false
 	}
-	s = s[i:]
-	if j := strings.Index(s, "\n\n"); j >= 0 {
-		s = s[:j]
+	sec := buf[i:]
+	if j := bytes.Index(sec, []byte("\n\n")); j >= 0 {
+		sec = sec[:j]
 	}
+	s := string(sec)
 	frames := reFrame.FindAllStringSubmatch(s, -1)
 	for k, f := range frames {
 		if strings.HasSuffix(f[1], "sync.(*Mutex).Lock") && k+1 < len(frames) {
